@@ -21,6 +21,15 @@ func checkC12(c *Ctx) {
 	ruleDirTable(c)
 	ruleLoadDirectoryCallback(c)
 	ruleWalkProtocol(c, c.P, "R12.4")
+	// R12.5 "a file that fails to parse is reported and skipped" needs the parse chain to report every failure
+	if pf := newParserFacts(c); pf.err == nil {
+		fns := pf.regionFuncs()
+		if rd := c.P.Func(pkgConfig, "", "readDeviceConfig"); rd != nil {
+			fns = append(fns, rd)
+		}
+		ruleErrorsReturnedAs(c, fns, "R12.5", nil)
+		c.MinCount("R12.5", 8)
+	}
 	c.MinCount("R12.1", 11)
 	c.MinCount("R12.2", 5)
 	c.MinCount("R12.3", 4)
